@@ -370,7 +370,7 @@ def correspondence(pid, tier, seed, ev, violations, replay_case=None):
                 # state 23) tie the model to the code more tightly than the property demands: for every
                 # property except the format property C10 a difference there alone is a broken
                 # correspondence (a harmless change of internals can cause it), not a failing input
-                internal = {21, 22, 23} if pid != "C10" else set()
+                internal = {21, 22, 23, 24, 25, 26, 27} if pid != "C10" else set()
                 codes = [c["op"] for c in cases[i]["ops"]]
                 api_diffs = [k for k in diff_ops if k >= len(codes) or codes[k] not in internal]
                 opi = (api_diffs or diff_ops or [None])[0]
